@@ -26,7 +26,7 @@ for n in names:
             v = [l for l in r.stdout.split('\n') if l.startswith('VIOLATION')]
             row[p] = 0 if r.returncode == 0 else (2 if v and 'no-failing-input-found' in v[0] else (1 if v else 3))
     finally:
-        sh('git -C %s checkout -- .' % repo)
+        sh('git -C %s checkout -- . && ( [ "$(realpath %s)" = /repo ] || git -C %s clean -fdq )' % (repo, repo, repo))
     res[n] = row
     print(n, ' '.join('%s%s' % (p[1:], {0: '.', 1: 'X', 2: 'n', 3: '!'}[row[p]]) for p in ids), flush=True)
 json.dump(res, open(os.path.join(here, 'matrix.json'), 'w'), indent=1)
